@@ -292,7 +292,25 @@ def predictor_obligations(rep):
                     return None
                 v = pysym.verify(QP, 'QueryPlanner.get_predictor', make_args, post)
                 _emit(rep, f'C10.model.lookup.{tag}', v, fn,
-                      'ensures one lookup with key lower([namespace .] name), a trailing all-digit part (when more than one part) is the version and is kept')
+                      'ensures one lookup with key lower([namespace .] name), a trailing all-digit part (when more than one part) is the version and is kept; the version recorded for this reference does not depend on earlier lookups',
+                      replay=lambda version=version: replay_lookup(version))
+
+
+def replay_lookup(versioned):
+    """history witness: the same model looked up with another spelling first, then with this one; the version must be the one of THIS reference"""
+    from mindsdb_sql import parse_sql
+    from mindsdb_sql.parser.ast import Identifier
+    from mindsdb_sql.planner.query_planner import QueryPlanner
+    try:
+        pl = QueryPlanner(parse_sql('select 1'), integrations=['int1'], predictor_metadata=[{'name': 'pred', 'integration_name': 'proj'}], default_namespace='mindsdb')
+        first, second = ('proj.pred', 'proj.pred.3') if versioned else ('proj.pred.3', 'proj.pred')
+        pl.get_predictor(Identifier(first))
+        info = pl.get_predictor(Identifier(second))
+        want = '3' if versioned else None
+        got = info.get('version') if info else '<model not found>'
+        return {'input': f'get_predictor({first}); get_predictor({second})', 'dialect': 'mindsdb', 'fires': got != want, 'observed': f'version {got!r}', 'expected': f'{want!r}'}
+    except Exception as e:
+        return {'input': 'get_predictor history', 'dialect': 'mindsdb', 'fires': False, 'observed': f'{type(e).__name__}: {e}'[:120]}
 
 
 # ------------------------------------------------------------------ qualifier stripping callback
